@@ -847,10 +847,12 @@ func (a *AttributeExpr) inheritValidations(parent *AttributeExpr) {
 	if a.Validation == nil {
 		a.Validation = &ValidationExpr{}
 	}
-	// Only the attributes that the child defines can be required.
+	// Only the attributes that the child defines can be required. A child
+	// without type inherits the type of the parent and thus all its
+	// attributes.
 	obj := AsObject(a.Type)
 	for _, n := range parent.Validation.Required {
-		if obj.Attribute(n) != nil {
+		if a.Type == nil || (obj != nil && obj.Attribute(n) != nil) {
 			a.Validation.AddRequired(n)
 		}
 	}
